@@ -8,6 +8,8 @@ import (
 	"fmt"
 	"math/big"
 	"strings"
+	"sync"
+	"sync/atomic"
 
 	"github.com/hyperledger/firefly-signer/pkg/ethtypes"
 )
@@ -189,6 +191,9 @@ func init() {
 				}
 				pre := Pick(r, []string{"0x", "0x", "", "", "0X", "0x0x", " 0x"})
 				c.Add(map[string]any{"op": "eth.addr", "text": pre + h}, fmt.Sprintf("addr.len%d", n))
+				if i == 0 {
+					c.Add(map[string]any{"op": "eth.addr", "text": "0x" + strings.Repeat("00", 20), "concurrentFormat": true}, "addr.concurrent-format")
+				}
 				bb := r.Bytes(r.LogLen(1024))
 				hb := hx(bb)
 				if r.Intn(4) == 0 {
@@ -244,6 +249,37 @@ func init() {
 				}
 				return out
 			case "eth.addr":
+				if req["concurrentFormat"] == true {
+					// the printed forms of a few addresses, computed from 8 goroutines at once, against the sequential ones
+					var addrs []*ethtypes.Address0xHex
+					var want []string
+					for k := 0; k < 16; k++ {
+						a, _ := ethtypes.NewAddress(fmt.Sprintf("%040x", 0x9e3779b97f4a7c15*uint64(k+1)))
+						addrs = append(addrs, a)
+						want = append(want, ethtypes.AddressWithChecksum(*a).String()+a.String()+ethtypes.AddressPlainHex(*a).String())
+					}
+					var bad int64
+					var wg sync.WaitGroup
+					for g := 0; g < 8; g++ {
+						wg.Add(1)
+						go func(g int) {
+							defer wg.Done()
+							defer func() {
+								if rec := recover(); rec != nil {
+									atomic.AddInt64(&bad, 1)
+								}
+							}()
+							for n := 0; n < 4000; n++ {
+								k := (g + n) % len(addrs)
+								if ethtypes.AddressWithChecksum(*addrs[k]).String()+addrs[k].String()+ethtypes.AddressPlainHex(*addrs[k]).String() != want[k] {
+									atomic.AddInt64(&bad, 1)
+								}
+							}
+						}(g)
+					}
+					wg.Wait()
+					return map[string]any{"concurrentFormat": true, "bad": bad}
+				}
 				a, err := ethtypes.NewAddress(str(req, "text"))
 				if err != nil {
 					return "err"
@@ -344,6 +380,12 @@ func init() {
 					}
 				}
 			case "eth.addr":
+				if m, isMap := impl.(map[string]any); isMap && m["concurrentFormat"] == true {
+					if fmt.Sprint(m["bad"]) != "0" {
+						return []Finding{{Kind: "violation", Region: "eth.addr.concurrent-format", Detail: fmt.Sprintf("%v of 32000 address renderings (checksum / 0x / plain) made from 8 goroutines differ from the same renderings made sequentially", m["bad"])}}
+					}
+					return nil
+				}
 				if !same(impl, map[string]any{}) {
 					mo := orc["model"]
 					if mm, isok := mo.(map[string]any); isok {
